@@ -4,13 +4,19 @@ SPEC = {
     "gen": [],
     "streams": [
         {"name": "writelog", "cmd": "writelog",
-         "args": {"quick": ["-cases", "32"], "thorough": ["-cases", "1500"]},
+         "args": {"quick": ["-cases", "32"], "thorough": ["-cases", "900"]},
          "search_args": ["-cases", "400"]},
         {"name": "pblog", "cmd": "writelog",
-         "args": {"quick": ["-mode", "pblog", "-cases", "24"], "thorough": ["-mode", "pblog", "-cases", "600"]}},
+         "args": {"quick": ["-mode", "pblog", "-cases", "24"], "thorough": ["-mode", "pblog", "-cases", "400"]}},
+        {"name": "pbstore", "cmd": "writelog",
+         "args": {"quick": ["-mode", "pbstore", "-cases", "24"], "thorough": ["-mode", "pbstore", "-cases", "300"]}},
+        {"name": "pbenc", "cmd": "writelog",
+         "args": {"quick": ["-mode", "pbenc", "-cases", "16"], "thorough": ["-mode", "pbenc", "-cases", "200"]}},
     ],
     "trusted_base": [
         "Coq 8.16.1 kernel (coqc; coqchk in the thorough tier); no native_compute",
+        "verif-tagged go/storage/mkvs/db/pathbadger/export_verif_store.go (read-only: sequence number, updated-nodes index with the nodes, root node and raw stored log of a just committed root)",
+        "the storage worker's own lines (worker.go fetchDiff 383-396 and the error switch 1152-1165) are ported in the harness and in Model.sync_root; LocalBackend.Apply underneath is the real one",
         "verif-tagged go/storage/mkvs/db/pathbadger/export_verif.go (read-only: returns the stored internal write log of a pair and the nodes at the positions it references)",
         "harness/cmd/writelog (drives the real MKVS tree, both node databases and go/storage/database LocalBackend.Apply/GetDiff on temp directories; records observations as Coq terms); one read-only export hook (pathbadger)",
         "vm_compute evaluation of Verif.WriteLog.Model.run_case on the recorded cases (no extraction)",
@@ -31,6 +37,6 @@ SPEC = {
 
 MANIFEST = {
     "technique": "Coq proof (invariant over the pending write log by induction over arbitrary batches; canonical sorted maps; case analysis of Apply) with differential correspondence check against the real MKVS tree, both node databases and LocalBackend.Apply",
-    "level_text": "Theorems in coq/Props/C13.v hold for every old contents and every batch of inserts/removes: the log built at commit has distinct keys, is sound, complete and minimal, and applied (in any order) to the old contents gives exactly the new contents; the hashed log revives to itself; Apply persists a root iff the recomputed digest equals the expected one (or the root is already stored), a rejected Apply (hash mismatch, unknown start root, already finalized version) leaves the database unchanged and the expected root absent, every stored root is the digest of its contents over any history of Apply calls, and a log producing other contents is rejected unless root_of collides; multi-hop answers (concatenation of hop logs, oldest first) are correct for any hop count; pathbadger's path-keyed internal log resolves to the committed log exactly when no inserted leaf carries the invalid pointer, and the known unservable case is a refuted lemma of the port (pathbadger_log_unservable_refuted). The model is tied to the code by committing generated batches on real badger and pathbadger databases, comparing the served write log (for linear chains and for 2-3 competing candidate roots per version, before and after finalizing one of them) and the end contents with the model, and replaying corrupted and correct logs through LocalBackend.Apply on a second database; an independent Go oracle on maps judges the property on the implementation.",
+    "level_text": "Theorems in coq/Props/C13.v hold for every old contents and every batch of inserts/removes: the log built at commit has distinct keys, is sound, complete and minimal, and applied (in any order) to the old contents gives exactly the new contents; the hashed log revives to itself; Apply persists a root iff the recomputed digest equals the expected one (or the root is already stored), a rejected Apply (hash mismatch, unknown start root, already finalized version) leaves the database unchanged and the expected root absent, every stored root is the digest of its contents over any history of Apply calls, and a log producing other contents is rejected unless root_of collides; multi-hop answers (concatenation of hop logs, oldest first) are correct for any hop count; the storage worker's diff-sync decision (skip known roots, empty log for an unchanged hash, Apply with the expected root, retry over peers) is sound for every peer answer and live with one honest peer; pathbadger's write-log storage (sequence numbers, pending and final node slots read at the end root's version, logs keyed by version/end/start, Finalize) serves the committed log of the first candidate at once, refuses later pending candidates, and keeps serving it under any later history; the stored CBOR form of the internal log decodes to what was encoded; pathbadger's path-keyed internal log resolves to the committed log exactly when no inserted leaf carries the invalid pointer, and the known unservable case is a refuted lemma of the port (pathbadger_log_unservable_refuted). The model is tied to the code by committing generated batches on real badger and pathbadger databases, comparing the served write log (for linear chains and for 2-3 competing candidate roots per version, before and after finalizing one of them) and the end contents with the model, and replaying corrupted and correct logs through LocalBackend.Apply on a second database; an independent Go oracle on maps judges the property on the implementation.",
     "level_note": "Trusted: Coq kernel; the harness; contents-level abstraction of trees (bridge to root hashes is the Mkvs area's theorem); root hash treated as an arbitrary function, collisions an explicit disjunct. Not modelled: database internals below the set of stored roots, pathbadger's path-keyed log storage (checked by K/S only), encoding of stored logs.",
 }
